@@ -148,6 +148,20 @@ fn gen_workload(seed: u64, idx: u64) -> Workload {
             gcs.push(g);
         }
     }
+    // one workload in six contains a BIG configuration: more than 32 patterns (keyword list) and an
+    // automaton with more than 64 states (bounded repetition) — size thresholds in caches and
+    // scratch structures
+    if rng.chance(1, 6) {
+        let mut pats: Vec<PatternSpec> = (0..40usize)
+            .map(|i| PatternSpec { pattern: format!("k{}{}", (b'a' + (i % 26) as u8) as char, i), token_type: 100 + i, lookahead: None })
+            .collect();
+        pats.push(PatternSpec { pattern: "a{1,70}b".to_string(), token_type: 99, lookahead: None });
+        pats.push(PatternSpec { pattern: "[a-z]".to_string(), token_type: 98, lookahead: None });
+        let big = vec![ModeSpec { name: "INITIAL".into(), patterns: pats, transitions: vec![] }];
+        if matches!(try_uncached(&big), Some(Ok(_))) {
+            configs.push(big);
+        }
+    }
     // near-variants raise the chance of key confusion under concurrency
     if rng.chance(1, 2) {
         let kind = *rng.pick(gen::VARIANT_KINDS);
@@ -168,6 +182,10 @@ fn gen_workload(seed: u64, idx: u64) -> Workload {
     }
     let refs: Vec<&gen::GenConfig> = gcs.iter().collect();
     let inputs: Vec<String> = (0..rng.range(1, 3)).map(|_| gen::gen_input(&mut rng, &al, &refs, (0, 16))).collect();
+    let mut inputs = inputs;
+    if configs.iter().any(|c| c[0].patterns.len() > 32) {
+        inputs.push(format!("kb1 {}b kn39 {}b kz25", "a".repeat(40), "a".repeat(69)));
+    }
     let shared_cfg = rng.below(configs.len());
     let n_threads = rng.range(2, 4);
     let mut threads = Vec::new();
